@@ -1,60 +1,99 @@
 import KitProofs.Lemmas.SpiffeRenew
-/-! Property C19, timing clause over whole histories: when the clock overshoots no wake by more than
-`δ`, every renewal request is stamped within `δ` of the instant its certificate passed half-life. -/
+/-! Property C19, timing clause over whole histories, with fetches that take time: when the clock
+overshoots no wake by more than `δ`, every renewal request is ISSUED within `δ` of the instant its
+certificate passed half-life (or was received, if it was already past half-life then) — however long
+the issuer then takes to answer. -/
 namespace Kit.Spiffe
 
 /-- The instant from which the renewal of the certificate of request `r` is due: its half-life, or
-the moment it was issued if it was already past half-life then. -/
-def dueAt (r : Req) : Int := max r.half r.stamp
+the moment the answer carrying it was processed if it was already past half-life then. -/
+def dueAt (r : Req) : Int := max r.half r.answered
 
-/-- Consecutive requests (newest first): the one after a successful request `r1` is stamped in
-`[dueAt r1, dueAt r1 + δ]`. -/
+/-- Consecutive answered requests (newest first): the one after a successful request `r1` was
+issued (`stamp`) in `[dueAt r1, dueAt r1 + δ]`. -/
 def PairOK (δ : Int) : List Req → Prop
   | r2 :: r1 :: rest => (r1.good = true → dueAt r1 ≤ r2.stamp ∧ r2.stamp ≤ dueAt r1 + δ) ∧ PairOK δ (r1 :: rest)
   | _ => True
 
 structure TInv (δ : Int) (s : RN) : Prop where
-  head : ∀ r rest, s.log = r :: rest → r.good = true → s.renewAt = r.half ∧ s.mode = .waiting
-  fresh : ∀ r rest, s.log = r :: rest → r.good = true → s.now ≤ dueAt r + δ
-  stamps : ∀ r rest, s.log = r :: rest → r.stamp ≤ s.now
+  head : ∀ r rest, s.log = r :: rest → r.good = true →
+    s.renewAt = r.half ∧ (s.mode = .waiting ∨ s.mode = .inflight)
+  fresh : ∀ r rest, s.log = r :: rest → r.good = true → s.mode = .waiting → s.now ≤ dueAt r + δ
+  flightDue : ∀ r rest, s.log = r :: rest → r.good = true → s.mode = .inflight →
+    dueAt r ≤ s.reqAt ∧ s.reqAt ≤ dueAt r + δ
+  stamps : ∀ r rest, s.log = r :: rest → r.answered ≤ s.now
   pairs : PairOK δ s.log
 
-theorem tinv_congr {δ : Int} {s s' : RN} (h1 : s'.log = s.log) (h2 : s'.now = s.now)
-    (h3 : s'.renewAt = s.renewAt) (h4 : s.mode = .waiting → s'.mode = .waiting) (h : TInv δ s) : TInv δ s' := by
-  refine ⟨?_, ?_, ?_, ?_⟩
-  · intro r rest hl hg; rw [h1] at hl
-    obtain ⟨a, b⟩ := h.head r rest hl hg
-    exact ⟨by rw [h3]; exact a, h4 b⟩
-  · intro r rest hl hg; rw [h1] at hl; rw [h2]; exact h.fresh r rest hl hg
-  · intro r rest hl; rw [h1] at hl; rw [h2]; exact h.stamps r rest hl
-  · rw [h1]; exact h.pairs
+theorem tinv_arm {δ : Int} {s : RN} (h : TInv δ s) (hm : s.mode = .waiting ∨ s.mode = .retrying) :
+    TInv δ (arm s) := by
+  obtain ⟨hmode, _, _, hn, hr, _, hl, _⟩ := arm_fields s
+  refine ⟨?_, ?_, ?_, ?_, ?_⟩
+  · intro r rest hlg hg; rw [hl] at hlg
+    exact ⟨by rw [hr]; exact (h.head r rest hlg hg).1, Or.inl hmode⟩
+  · intro r rest hlg hg _; rw [hl] at hlg; rw [hn]
+    have hw : s.mode = .waiting := by
+      rcases (h.head r rest hlg hg).2 with h1 | h1
+      · exact h1
+      · rcases hm with h2 | h2 <;> rw [h2] at h1 <;> cases h1
+    exact h.fresh r rest hlg hg hw
+  · intro r rest _ _ hmi; rw [hmode] at hmi; cases hmi
+  · intro r rest hlg; rw [hl] at hlg; rw [hn]; exact h.stamps r rest hlg
+  · rw [hl]; exact h.pairs
 
-theorem tinv_arm {δ : Int} {s : RN} (h : TInv δ s) : TInv δ (arm s) := by
-  obtain ⟨hm, _, _, hn, hr, _, hl, _⟩ := arm_fields s
-  exact tinv_congr hl hn hr (fun _ => hm) h
+theorem tinv_issue {δ : Int} {s : RN} (h : TInv δ s) (hm : s.mode = .waiting) (hle : s.renewAt ≤ s.now) :
+    TInv δ (issue s false) := by
+  obtain ⟨h1, _, h3, _, _, h6, _, h8, _, _, h11, _⟩ := issue_fields s false
+  refine ⟨?_, ?_, ?_, ?_, ?_⟩
+  · intro r rest hlg hg; rw [h8] at hlg
+    exact ⟨by rw [h11]; exact (h.head r rest hlg hg).1, Or.inr h1⟩
+  · intro r rest _ _ hmw; rw [h1] at hmw; cases hmw
+  · intro r rest hlg hg _; rw [h8] at hlg; rw [h3]
+    have hren := (h.head r rest hlg hg).1
+    have hf := h.fresh r rest hlg hg hm
+    have hst := h.stamps r rest hlg
+    simp only [dueAt] at hf ⊢
+    constructor <;> omega
+  · intro r rest hlg; rw [h8] at hlg; rw [h6]; exact h.stamps r rest hlg
+  · rw [h8]; exact h.pairs
 
-/-- A fetch issued in waiting mode at/after the renewal time, followed by what `wake` does with it. -/
-theorem tinv_after_fetch {δ : Int} (hδ : 0 ≤ δ) {s s' : RN} (h : TInv δ s)
-    (hle : ∀ r1 rest, s.log = r1 :: rest → r1.good = true → r1.half ≤ s.now)
-    (r : Option Cert) (hlog : s'.log = ⟨s.now, s.nextTok, r.isSome, s.anchors, halfOf r⟩ :: s.log)
-    (hnow : s'.now = s.now)
-    (hhead : r.isSome = true → s'.renewAt = halfOf r ∧ s'.mode = .waiting) : TInv δ s' := by
-  refine ⟨?_, ?_, ?_, ?_⟩
-  · intro r' rest hl hg
-    rw [hlog] at hl
-    simp only [List.cons.injEq] at hl
-    obtain ⟨rfl, _⟩ := hl
-    exact hhead hg
-  · intro r' rest hl hg
-    rw [hlog] at hl
-    simp only [List.cons.injEq] at hl
-    obtain ⟨rfl, _⟩ := hl
-    rw [hnow]; simp only [dueAt]; omega
-  · intro r' rest hl
-    rw [hlog] at hl
-    simp only [List.cons.injEq] at hl
-    obtain ⟨rfl, _⟩ := hl
-    rw [hnow]; exact Int.le_refl _
+theorem tinv_wake {δ : Int} {s : RN} (h : TInv δ s) : TInv δ (wake s) := by
+  rcases wake_cases s with ⟨_, hw⟩ | ⟨hm, hw⟩ | ⟨hm, _, hw⟩ | ⟨hm, hle, hw⟩
+  · rw [hw]; exact h
+  · rw [hw]; exact tinv_arm h (Or.inr hm)
+  · rw [hw]; exact tinv_arm h (Or.inl hm)
+  · rw [hw]; exact tinv_issue h hm hle
+
+theorem settle_tinv {δ : Int} : ∀ (n : Nat) (s : RN), TInv δ s → TInv δ (settle n s) := by
+  intro n
+  induction n with
+  | zero => intro s h; exact h
+  | succ n ih =>
+    intro s h
+    simp only [settle]
+    split
+    · exact ih _ (tinv_wake h)
+    · exact h
+
+/-- The answer to the outstanding request has been logged (`t`); `t.mode = waiting` with the new
+renewal time if it was a success. -/
+theorem tinv_after_answer {δ : Int} (hδ : 0 ≤ δ) {s t : RN} (h : TInv δ s) (hm : s.mode = .inflight)
+    (r2 : Req) (hlog : t.log = r2 :: s.log) (hnow : t.now = s.now) (hst : r2.stamp = s.reqAt)
+    (hans : r2.answered = s.now)
+    (hgood : r2.good = true → t.renewAt = r2.half ∧ t.mode = .waiting)
+    (hbad : r2.good = false → t.mode = .retrying ∨ t.mode = .dead) : TInv δ t := by
+  refine ⟨?_, ?_, ?_, ?_, ?_⟩
+  · intro r rest hl hg
+    rw [hlog] at hl; simp only [List.cons.injEq] at hl; obtain ⟨rfl, _⟩ := hl
+    exact ⟨(hgood hg).1, Or.inl (hgood hg).2⟩
+  · intro r rest hl hg _
+    rw [hlog] at hl; simp only [List.cons.injEq] at hl; obtain ⟨rfl, _⟩ := hl
+    rw [hnow]; simp only [dueAt, hans]; omega
+  · intro r rest hl hg hmi
+    rw [hlog] at hl; simp only [List.cons.injEq] at hl; obtain ⟨rfl, _⟩ := hl
+    rw [(hgood hg).2] at hmi; cases hmi
+  · intro r rest hl
+    rw [hlog] at hl; simp only [List.cons.injEq] at hl; obtain ⟨rfl, _⟩ := hl
+    rw [hnow, hans]; exact Int.le_refl _
   · rw [hlog]
     cases hs : s.log with
     | nil => simp [PairOK]
@@ -63,46 +102,32 @@ theorem tinv_after_fetch {δ : Int} (hδ : 0 ≤ δ) {s s' : RN} (h : TInv δ s)
       rw [hs] at hp
       refine ⟨?_, hp⟩
       intro hg
-      have hren := hle r1 rest hs hg
-      have hf := h.fresh r1 rest hs hg
-      have hst := h.stamps r1 rest hs
-      simp only [dueAt] at hf ⊢
-      constructor <;> omega
+      rw [hst]
+      exact h.flightDue r1 rest hs hg hm
 
-theorem tinv_wake {δ : Int} (hδ : 0 ≤ δ) {s : RN} (hl : LInv s) (h : TInv δ s) : TInv δ (wake s) := by
-  have fs := fetch_spec s
-  rcases wake_cases s with ⟨_, hw⟩ | ⟨_, hw⟩ | ⟨_, _, hw⟩ | ⟨hm, hle, hnone, hw⟩ | ⟨hm, hle, c, hsome, hw⟩
-  · rw [hw]; exact h
-  · rw [hw]; exact tinv_arm h
-  · rw [hw]; exact tinv_arm h
-  · rw [hw]
-    rw [hnone] at fs
-    exact tinv_after_fetch hδ h (fun r1 rest hs hg => by rw [← (h.head r1 rest hs hg).1]; exact hle)
-      none fs.log fs.now (by intro h'; cases h')
-  · rw [hw]
-    rw [hsome] at fs
-    apply tinv_arm
-    exact tinv_after_fetch hδ h (fun r1 rest hs hg => by rw [← (h.head r1 rest hs hg).1]; exact hle)
-      (some c) fs.log fs.now (by intro _; exact ⟨rfl, by show (fetch s).1.mode = _; rw [fs.mode]; exact hm⟩)
+theorem tinv_answerCore {δ : Int} (hδ : 0 ≤ δ) {s : RN} (h : TInv δ s) (hm : s.mode = .inflight) :
+    TInv δ (answerCore s) := by
+  have cs := complete_spec s
+  rcases answerCore_cases s with ⟨hn, _, hw⟩ | ⟨hn, _, hw⟩ | ⟨c, hc, hw⟩
+  · rw [hw]; rw [hn] at cs
+    exact tinv_after_answer hδ h hm _ cs.log cs.now rfl rfl (by intro hh; cases hh) (fun _ => Or.inr rfl)
+  · rw [hw]; rw [hn] at cs
+    exact tinv_after_answer hδ h hm _ cs.log cs.now rfl rfl (by intro hh; cases hh) (fun _ => Or.inl rfl)
+  · rw [hw]; rw [hc] at cs
+    obtain ⟨hmode, _, _, hn, hr, _, hl, _⟩ := arm_fields
+      { (complete s).1 with svid := some c, renewAt := renewalTime c.nb c.na }
+    exact tinv_after_answer hδ h hm _ (hl.trans cs.log) (hn.trans cs.now) rfl rfl
+      (fun _ => ⟨hr, hmode⟩) (by intro hh; cases hh)
 
-theorem settle_tinv {δ : Int} (hδ : 0 ≤ δ) : ∀ (n : Nat) (s : RN), LInv s → TInv δ s → TInv δ (settle n s) := by
-  intro n
-  induction n with
-  | zero => intro s _ h; exact h
-  | succ n ih =>
-    intro s hl h
-    simp only [settle]
-    split
-    · exact ih _ (linv_wake hl) (tinv_wake hδ hl h)
-    · exact h
-
-/-- Reachability when no clock advance overshoots: each advance is at most `δ` long, or ends at most
-`δ` after the deadline of the armed timer. -/
+/-- Reachability when no clock advance overshoots a wake of the rotation timer by more than `δ`: in
+mode `waiting` each advance is at most `δ` long, or ends at most `δ` after the deadline of the armed
+timer.  Advances while a request is in flight, and the moment of each answer, are unconstrained. -/
 inductive RReachD (δ : Int) (dirOn : Bool) (a0 : Nat) (script : List Reply) (t0 : Int) : RN → Prop where
   | start : RReachD δ dirOn a0 script t0 (start dirOn a0 script t0)
-  | adv {s : RN} (d : Int) : 0 < d → (d ≤ δ ∨ s.now + d ≤ s.wakeAt + δ) →
+  | adv {s : RN} (d : Int) : 0 < d → (s.mode = .waiting → d ≤ δ ∨ s.now + d ≤ s.wakeAt + δ) →
       RReachD δ dirOn a0 script t0 s → RReachD δ dirOn a0 script t0 (advance s d)
   | anch {s : RN} (a : Nat) : RReachD δ dirOn a0 script t0 s → RReachD δ dirOn a0 script t0 (setAnchors s a)
+  | ans {s : RN} : RReachD δ dirOn a0 script t0 s → RReachD δ dirOn a0 script t0 (answer s)
 
 theorem RReachD.toRReach {δ : Int} {dirOn : Bool} {a0 : Nat} {script : List Reply} {t0 : Int} {s : RN}
     (h : RReachD δ dirOn a0 script t0 s) : RReach dirOn a0 script t0 s := by
@@ -110,61 +135,46 @@ theorem RReachD.toRReach {δ : Int} {dirOn : Bool} {a0 : Nat} {script : List Rep
   | start => exact .start
   | adv d hd _ _ ih => exact .adv d hd ih
   | anch a _ ih => exact .anch a ih
-
-theorem not_due_lt {s : RN} (h : s.due = false) (hm : s.mode ≠ .dead) : s.now < s.wakeAt := by
-  cases hlt : decide (s.now < s.wakeAt)
-  · have : s.due = true := (due_iff s).mpr ⟨hm, by simpa using hlt⟩
-    rw [this] at h; cases h
-  · simpa using hlt
+  | ans _ ih => exact .ans ih
 
 theorem tinv_reach {δ : Int} (hδ : 0 ≤ δ) {dirOn : Bool} {a0 : Nat} {script : List Reply} {t0 : Int} {s : RN}
     (h : RReachD δ dirOn a0 script t0 s) : TInv δ s := by
   induction h with
   | start =>
-    have fs := fetch_spec (start0 dirOn a0 script t0)
-    have hlog0 : (start0 dirOn a0 script t0).log = [] := rfl
-    have t0inv : TInv δ (start0 dirOn a0 script t0) := by
-      refine ⟨?_, ?_, ?_, ?_⟩
-      · intro r rest hl; rw [hlog0] at hl; cases hl
-      · intro r rest hl; rw [hlog0] at hl; cases hl
-      · intro r rest hl; rw [hlog0] at hl; cases hl
-      · rw [hlog0]; simp [PairOK]
-    have hvac : ∀ r1 rest, (start0 dirOn a0 script t0).log = r1 :: rest → r1.good = true →
-        r1.half ≤ (start0 dirOn a0 script t0).now := by
-      intro r1 rest hl; rw [hlog0] at hl; cases hl
-    rcases start_cases dirOn a0 script t0 with ⟨hn, hs⟩ | ⟨c, hc, hs⟩
-    · rw [hs]; rw [hn] at fs
-      exact tinv_after_fetch hδ t0inv hvac none fs.log fs.now (by intro h'; cases h')
-    · rw [hs]; rw [hc] at fs
-      have d0 : DInv (start0 dirOn a0 script t0) := by
-        refine ⟨rfl, rfl, ?_⟩
-        cases dirOn <;> rfl
-      have hd := dinv_fetch d0 (renewalTime c.nb c.na)
-      rw [hc] at hd
-      apply settle_tinv hδ _ _ (linv_arm hd)
-      obtain ⟨hm, _, _, hn, hr, _, hlg, _⟩ := arm_fields
-        { (fetch (start0 dirOn a0 script t0)).1 with svid := some c, renewAt := renewalTime c.nb c.na }
-      refine tinv_after_fetch hδ t0inv hvac (some c) (hlg.trans fs.log) (hn.trans fs.now) ?_
-      intro _
-      exact ⟨hr, hm⟩
+    have hl : (start dirOn a0 script t0).log = [] := rfl
+    refine ⟨?_, ?_, ?_, ?_, ?_⟩
+    · intro r rest h; rw [hl] at h; cases h
+    · intro r rest h; rw [hl] at h; cases h
+    · intro r rest h; rw [hl] at h; cases h
+    · intro r rest h; rw [hl] at h; cases h
+    · rw [hl]; simp [PairOK]
   | @adv s d hd hov hprev ih =>
     obtain ⟨hl, hdue⟩ := rinv hprev.toRReach
-    apply settle_tinv hδ _ _ (linv_advance_pre hl (Int.le_of_lt hd))
-    refine ⟨?_, ?_, ?_, ?_⟩
+    apply settle_tinv
+    refine ⟨?_, ?_, ?_, ?_, ?_⟩
     · intro r rest hlg hg; exact ih.head r rest hlg hg
-    · intro r rest hlg hg
-      obtain ⟨hren, hmode⟩ := ih.head r rest hlg hg
-      have hlt := not_due_lt hdue (by rw [hmode]; simp)
-      obtain ⟨hw1, _, _⟩ := hl.waiting hmode
+    · intro r rest hlg hg hmw
+      have hmw' : s.mode = .waiting := hmw
+      obtain ⟨hren, _⟩ := ih.head r rest hlg hg
+      have hlt := not_due_lt hdue (Or.inl hmw')
+      obtain ⟨hw1, _, _⟩ := hl.waiting hmw'
       show s.now + d ≤ dueAt r + δ
       simp only [dueAt]
-      rcases hov with h | h <;> omega
+      rcases hov hmw' with h | h <;> omega
+    · intro r rest hlg hg hmi; exact ih.flightDue r rest hlg hg hmi
     · intro r rest hlg
       have := ih.stamps r rest hlg
-      show r.stamp ≤ s.now + d
+      show r.answered ≤ s.now + d
       omega
     · exact ih.pairs
-  | @anch s a _ ih => exact tinv_congr (s := s) rfl rfl rfl (fun h => h) ih
+  | @anch s a _ ih =>
+    exact ⟨ih.head, ih.fresh, ih.flightDue, ih.stamps, ih.pairs⟩
+  | @ans s _ ih =>
+    simp only [answer]
+    split
+    · rename_i hm
+      exact settle_tinv _ _ (tinv_answerCore hδ ih hm)
+    · exact ih
 
 theorem pairOK_at {δ : Int} : ∀ (pre : List Req) (r2 r1 : Req) (rest : List Req),
     PairOK δ (pre ++ r2 :: r1 :: rest) → r1.good = true →
